@@ -5,6 +5,11 @@
 From Coq Require Import List String ZArith Bool.
 From Verif Require Import UnionModel UnionProofs UnionDeep UnionDeepProofs UnionEmit K19Proofs.
 From VerifGen Require Import K19.
+From Verif Require PackEmit K21Proofs.
+From Verif Require Import UnionDeepEnc UnionDeepEncProofs.
+From Verif Require LitEmit K22Proofs PyLit PyLitProofs PyStrLit.
+From VerifGen Require K22.
+From VerifGen Require K21.
 Import ListNotations.
 Open Scope string_scope.
 Open Scope Z_scope.
@@ -219,6 +224,13 @@ Theorem C11_union_emitted_partial : forall co ms d, Forall wf_mspec ms ->
 Proof. intros. rewrite emit_correct by assumption. apply union_decode_partial; assumption. Qed.
 Print Assumptions C11_union_emitted_partial.
 
+(* exception classes: whatever the member expressions raise, the only exception that leaves the emitted
+   union method is its own final raise (ValueError(value) / InvalidFieldValue), exactly when no member accepts *)
+Theorem C11_union_raise_class : forall co ms d, Forall wf_mspec ms ->
+  run_lines_x co (emit ms) d = match union_dec co (map to_member ms) d with Some x => XRet x | None => XValueError end.
+Proof. exact emit_raise_class. Qed.
+Print Assumptions C11_union_raise_class.
+
 Example C11_emit_nonvacuous :
   let ms := [SM KInt; NM 0 false w_date; SM KNone; NM 0 false w_date; NM 1 true Some] in
   Forall wf_mspec ms /\
@@ -266,6 +278,69 @@ Proof.
 Qed.
 Print Assumptions C11_union_encode_refuted.
 
+(* ---------- K21: the translated loops of pack.py:pack_union ---------- *)
+(* K21.emit is re-translated from /repo on every run; the method it describes computes pack_union *)
+Theorem C11_pack_emit_correct : forall pms v, pms <> [] ->
+  PackEmit.run_pres (K21.emit pms) v = pack_union pms v.
+Proof. exact K21Proofs.emit_pack_correct. Qed.
+Print Assumptions C11_pack_emit_correct.
+
+(* hence the packer the current source emits picks the matching member on the stated domain *)
+Theorem C11_pack_emitted_partial : forall pms v m, pms <> [] -> pcoherent pms v ->
+  In m pms -> p_accepts m v = true -> wire_disjoint pms v = true ->
+  PackEmit.run_pres (K21.emit pms) v = p_out m v.
+Proof. intros. rewrite K21Proofs.emit_pack_correct by assumption. apply pack_union_partial; assumption. Qed.
+Print Assumptions C11_pack_emitted_partial.
+
+Example C11_pack_emit_nonvacuous :
+  let d := fun v => match v with UObj "date" _ => Some (UStr "2020-01-01") | _ => None end in
+  let pms := [PM "date" (Some 1%nat) d; PM "str" None Some; PM "int" None Some; PM "date" (Some 1%nat) d] in
+  K21.emit pms = PackEmit.PMethod [PackEmit.PLIdent (PackEmit.PIn ["str"; "int"]); PackEmit.PLTry (PM "date" (Some 1%nat) d); PackEmit.PLRaise] /\
+  K21.emit [PM "str" None Some; PM "int" None Some] = PackEmit.PIdentity /\
+  PackEmit.run_pres (K21.emit pms) (UObj "date" "datetime.date(2020, 1, 1)") = Some (UStr "2020-01-01").
+Proof. cbv zeta. repeat split; reflexivity. Qed.
+
+(* ---------- serialization at any depth ---------- *)
+(* flat: with a member whose branch accepts the value and agreeing branches, the generated packer is the
+   first accepting member in declaration order *)
+Theorem C11_union_encode_ref : forall pms v, pcoherent pms v -> wire_disjoint pms v = true ->
+  existsb (fun m => p_accepts m v) pms = true -> pack_union pms v = ref_pack pms v.
+Proof. exact pack_union_ref. Qed.
+Print Assumptions C11_union_encode_ref.
+
+Definition C11_deep_encode_full : Prop := forall t v, qenc t v = qref t v.
+
+(* qsafe: every union visited while packing v has an accepting member and agreeing branches *)
+Theorem C11_deep_encode_partial : forall t v, qcoh t v -> qsafe t v = true -> qenc t v = qref t v.
+Proof. exact deep_enc_partial. Qed.
+Print Assumptions C11_deep_encode_partial.
+
+(* List[Union[Decimal, int]] holding [5] (Decimal's packer is str(value)): the class-checked identity
+   block is emitted first, so 5 stays 5 although the member declared first would accept it.  Here the
+   generated code is RIGHT and the declaration-order reading is not: the reference [ref_pack] is only the
+   model-internal proxy of "the member matching the value" (membership of a value in a type is judged by
+   the harness); inside the domain [qsafe] all firing branches agree and the two readings coincide. *)
+Theorem C11_deep_encode_refuted : ~ C11_deep_encode_full.
+Proof.
+  intro H.
+  specialize (H (QList (QU [(1%nat, QLeaf "Decimal" false (fun v => match v with UInt 5 => Some (UStr "5") | _ => None end));
+                            (2%nat, QLeaf "int" true Some)]))
+                (UList [UInt 5])).
+  discriminate H.
+Qed.
+Print Assumptions C11_deep_encode_refuted.
+
+Example C11_deep_encode_nonvacuous :
+  let dt := QLeaf "date" false (fun v => match v with UObj "date" _ => Some (UStr "2020-01-01") | _ => None end) in
+  let u := QU [(0%nat, QLeaf "int" true Some); (1%nat, dt); (2%nat, QList (QU [(0%nat, QLeaf "str" true Some); (1%nat, dt)]))] in
+  let t := QDict (QTupF [u; QOpt u]) in
+  let d := UObj "date" "datetime.date(2020, 1, 1)" in
+  let v := UDict [(UStr "k", UTuple [UList [UStr "a"; d]; UNone])] in
+  qsafe t v = true /\ qenc t v = Some (UDict [(UStr "k", UList [UList [UStr "a"; UStr "2020-01-01"]; UNone])]) /\
+  qenc t (UDict [(UStr "k", UTuple [UInt 5; d])]) = Some (UDict [(UStr "k", UList [UInt 5; UStr "2020-01-01"])]) /\
+  qenc t (UDict [(UStr "k", UTuple [UFloat None "1.5"; UNone])]) = None.
+Proof. cbv zeta. repeat split; reflexivity. Qed.
+
 (* ---------- Literal (after fix 0e88a65: the class of the value is compared too) ---------- *)
 
 (* Literal positions accept exactly their listed values and return the listed constant.
@@ -301,6 +376,32 @@ Lemma C11_literal_cross_type_rejected :
   lit_dec (fun _ => None) [LEnum (UInt 1) (UObj "Lvl" "<Lvl.LO: 1>")] (UBool true) = None /\
   lit_enc (fun _ => None) [LEnum (UInt 1) (UObj "Num" "<Num.ONE: 1>"); LBool true] (UBool true) = Some (Some (UBool true)).
 Proof. repeat split; reflexivity. Qed.
+
+(* ---------- K22: the translated loops of the Literal unpacker and packer builders ---------- *)
+Theorem C11_literal_emit_correct : forall bdec lits v,
+  LitEmit.run_ulines bdec (K22.emit_unpack lits) v = lit_dec bdec lits v.
+Proof. exact K22Proofs.emit_unpack_correct. Qed.
+Print Assumptions C11_literal_emit_correct.
+
+(* hence the Literal unpacker the current source emits accepts exactly the listed values *)
+Theorem C11_literal_emitted_full : forall bdec lits v, lit_nofloat lits = true ->
+  LitEmit.run_ulines bdec (K22.emit_unpack lits) v = ref_lit bdec lits v.
+Proof. intros. rewrite K22Proofs.emit_unpack_correct. apply lit_dec_full; assumption. Qed.
+Print Assumptions C11_literal_emitted_full.
+
+Theorem C11_literal_pack_emit_correct : forall benc lits v,
+  LitEmit.run_klines benc (K22.emit_pack lits) v = K22Proofs.flat2 (lit_enc benc lits v).
+Proof. exact K22Proofs.emit_pack_lit_correct. Qed.
+Print Assumptions C11_literal_pack_emit_correct.
+
+(* the comparison text spliced for a listed str / bytes / int / bool / None value (literal_repr = the builtin
+   repr, C16's PyLit.render_lit) denotes that value in both contexts the builders use it:
+   `... == <text>:` and `(<text>).__class__` *)
+Theorem C11_literal_text_denotes : forall p v rest, PyStrLit.oracle_ok p -> PyLit.wf_lit v ->
+  PyLit.eval_lit (PyLit.render_lit p v ++ 58%N :: rest) = Some (v, 58%N :: rest) /\
+  PyLit.eval_lit (PyLit.render_lit p v ++ PyLit.RP :: rest) = Some (v, PyLit.RP :: rest).
+Proof. intros p v rest Hp Hw. split; apply PyLitProofs.render_eval; auto. Qed.
+Print Assumptions C11_literal_text_denotes.
 
 (* ---------- non-vacuity: the hypotheses hold on non-trivial instances ---------- *)
 
